@@ -231,11 +231,29 @@ def real_run(tname, ops, vals):
     return [hashlib.sha256(numpy.ascontiguousarray(a, dtype=float).tobytes()).hexdigest() for a in out]
 
 
+def _real_edit_then_again(tname, vals):
+    """real code: make the seeded screen, edit it in place, make it again: True if the second differs from the first as made"""
+    ps, ips = _mods()
+    if tname not in ("ft", "ft3", "ftsh", "ftsh3"):
+        return False
+    f = ps.ft_phase_screen if tname in ("ft", "ft3") else ps.ft_sh_phase_screen
+    n = 8 if tname in ("ft", "ftsh") else 9
+    a = f(vals["r0"], n, vals["delta"], vals["L0"], vals["l0"], seed=vals["seed"])
+    keep = numpy.array(a, copy=True)
+    a *= 2.0
+    a += 7.0
+    b = f(vals["r0"], n, vals["delta"], vals["L0"], vals["l0"], seed=vals["seed"])
+    return not numpy.array_equal(numpy.asarray(b), keep)
+
+
 def replay_history(tname, ops, vals):
     ref = harness.pristine_eval(real_run, tname, [], vals)
     a = harness.pristine_eval(real_run, tname, list(ops), vals)
     b = harness.pristine_eval(real_run, tname, list(ops) + list(ops), vals)
     bad = ref != a or ref != b
+    if not bad and harness.pristine_eval(_real_edit_then_again, tname, vals):
+        return True, dict(what="seeded %s: after the caller edited the first screen in place, the same call returns a different screen (a shared / memoised array)" % tname,
+                          seed=vals["seed"], params=vals)
     return bad, dict(what="seeded %s differs from the history-free run after %s" % (tname, list(ops)) if bad else "bit-identical", seed=vals["seed"], params=vals,
                      reference=ref[:2], after_history=a[:2])
 
@@ -303,10 +321,21 @@ def case_history(ctx, tname, ops):
             for k, op in enumerate(ops):
                 do_op(env, op, k)
             t1 = target(env, tname, PARAMS["seed"])
+            # the caller owns what it was handed: it works on the first reproduction in place (unit conversion, piston
+            # removal) - a later reproduction must not show that
+            t1c = [numpy.asarray(a, dtype=object).copy() for a in t1]
+            for a in t1:
+                if isinstance(a, numpy.ndarray) and a.size:
+                    try:
+                        if not a.flags.writeable:        # (an engine artefact: real screens are writable)
+                            a.flags.writeable = True
+                        a[...] = a * 2 + 7
+                    except Exception:
+                        pass
             for k, op in enumerate(ops):
                 do_op(env, op, 10 + k)
             t2 = target(env, tname, PARAMS["seed"])
-            return t1, t2
+            return t1c, t2
     paths, ex = core.run_paths(go, PRE, max_paths=200)
     ctx.explored(ex, len(paths))
     rp = lambda m: replay_history(tname, ops, model_params(m))
